@@ -54,10 +54,17 @@ def build(v, ecs, lvl, variant=0):
         m.msh.msh_7 = "20200101"
         m.msh.msh_10 = "X1"
         parts9 = ["ADT", "A01"] + (["ADT_A01"] if v >= "2.3.1" and "_" not in ecs else [])
+        if variant == 2:
+            parts9 = ["ADT", "Z99"]       # an event no structure is known for: the parser has no structure to go by
         m.msh.msh_9 = ecs[1].join(parts9)
         msh_fields = [[[[cps(ecs[0])]]], [[[cps(ecs[1] + ecs[3] + ecs[4] + ecs[2] + (ecs[5] if six else ""))]]],
                       [[[[]]]], [[[[]]]], [[[[]]]], [[[[]]]], [[[cps("20200101")]]], [[[[]]]], [[[cps(x)] for x in parts9]], [[[cps("X1")]]], [[[[]]]],
                       [[[cps(v)]]]]
+        r12 = [r_ for r_ in (T.seg_rows(v, "MSH") or []) if r_["name"] == "MSH_12"]
+        if variant >= 1 and r12 and r12[0]["kind"] == "complex":
+            # MSH-12 with a second component (version id and internationalisation code), in the message's own delimiters
+            m.msh.msh_12 = v + ecs[1] + "ITA"
+            msh_fields[11] = [[[cps(v)], [cps("ITA")]]]
         doc = [{"name": cps("MSH"), "fields": msh_fields}]
         rep, plain = pick_fields(v)
         pid = m.add_segment("PID")
@@ -214,6 +221,8 @@ def run(ctx):
             for lvl in ((2,) if quick and rnd.random() < 0.6 else (2, 1)):
                 var = len(items) % 2
                 items.append((v, s, lvl, var))
+                if lvl == 2 and len(items) % 5 == 0:
+                    items.append((v, s, lvl, 2))
                 if v >= "2.7":
                     extra = rnd.choice([c for c in allp if c not in s])
                     items.append((v, s + extra, lvl, 1 - var))
